@@ -75,30 +75,29 @@ def next_pending(letter, outs):
 
 class LiveWatch:
     """(P) on one trace: a window of `k_hs + slack` consecutive cooperative cycles (valid=1, ready=1, extras
-    cooperative) must contain a sink or source handshake, a window of `k_del + slack` a delivery."""
+    cooperative) must contain a sink or source handshake, a window of `k_del + slack` a delivery (and, where the
+    element promises it, a window of `k_acc + slack` a sink handshake)."""
 
-    def __init__(self, k_hs, k_del, coop_extra=None, slack=2):
-        self.k_hs, self.k_del, self.slack = k_hs, k_del, slack
+    def __init__(self, k_hs, k_del, coop_extra=None, slack=2, k_acc=None):
+        self.k = {"handshake": k_hs, "delivery": k_del, "sink handshake": k_acc}
+        self.slack = slack
         self.coop_extra = coop_extra
-        self.run_hs = 0
-        self.run_del = 0
-        self.max_hs = 0
-        self.max_del = 0
+        self.run = {"handshake": 0, "delivery": 0, "sink handshake": 0}
+        self.max = {"handshake": 0, "delivery": 0, "sink handshake": 0}
 
     def observe(self, letter, outs):
         coop = letter[0] == 1 and letter[4] == 1 and (self.coop_extra is None or self.coop_extra(tuple(letter[5:])))
         if not coop:
-            self.run_hs = self.run_del = 0
+            for k in self.run:
+                self.run[k] = 0
             return None
-        hs = bool(outs[0]) or bool(outs[1])
-        self.run_hs = 0 if hs else self.run_hs + 1
-        self.run_del = 0 if outs[1] else self.run_del + 1
-        self.max_hs = max(self.max_hs, self.run_hs)
-        self.max_del = max(self.max_del, self.run_del)
-        if self.run_hs >= self.k_hs + self.slack:
-            return "no handshake in %d consecutive cooperative cycles (valid=1, ready=1)" % self.run_hs
-        if self.run_del >= self.k_del + self.slack:
-            return "no delivery in %d consecutive cooperative cycles (valid=1, ready=1)" % self.run_del
+        ev = {"handshake": bool(outs[0]) or bool(outs[1]), "delivery": bool(outs[1]), "sink handshake": bool(outs[0])}
+        for k in self.run:
+            self.run[k] = 0 if ev[k] else self.run[k] + 1
+            self.max[k] = max(self.max[k], self.run[k])
+        for k in ("handshake", "delivery", "sink handshake"):
+            if self.k[k] is not None and self.run[k] >= self.k[k] + self.slack:
+                return "no %s in %d consecutive cooperative cycles (valid=1, ready=1)" % (k, self.run[k])
         return None
 
 
@@ -146,11 +145,13 @@ def selftest():
 class C04Inst:
     """Wraps a `streamlib.StreamInst` (as built by props.c03): same netlist, ports and Lean machine; C04 monitors.
        k_hs / k_del  : the bounds K, K' of the Lean theorems `X_progress` / `X_no_livelock` for this element
+       k_acc         : bound of `AcceptsWithin` (sink served), when such a theorem exists
        coop_extra    : predicate on the extra inputs under which progress is promised (None: always)
        tokens        : optional restriction of the (data, first, last) token values of the alphabet"""
 
-    def __init__(self, inner, k_hs, k_del, coop_extra=None, tokens=None, stable=True, note=None):
+    def __init__(self, inner, k_hs, k_del, coop_extra=None, tokens=None, stable=True, note=None, k_acc=None):
         self.inner = inner
+        self.k_acc = k_acc
         self.name = inner.name
         self.lean_open = inner.lean_open
         self.netlist = inner.netlist
@@ -184,7 +185,7 @@ class C04Inst:
         return self.inner.gen(rng, t)
 
     def monitor(self):
-        mons = [LiveWatch(self.k_hs, self.k_del, self.coop_extra)]
+        mons = [LiveWatch(self.k_hs, self.k_del, self.coop_extra, k_acc=self.k_acc)]
         if self.stable:
             mons.insert(0, StabilityMonitor())
         return Both(*mons)
@@ -227,40 +228,52 @@ class HoldingGen:
 # ---------------------------------------------------------------------------------------------------------
 # Cooperative watchdog from a snapshot (real code only)
 
-def coop_gaps(inst, snap, limit_hs, limit_del, budget=400):
+def coop_gaps(inst, snap, budget=400, slack=2):
     """From the register state `snap`, drive cooperative letters (valid=1, ready=1) with every sequence of the
-    watchdog tokens and every held cooperative extra value, until a delivery is seen.
-    Returns (hs_gap, del_gap, failing_letters|None, msg|None): hs_gap / del_gap = worst-case number of cooperative
-    cycles needed to see the first handshake / the first delivery."""
+    watchdog tokens and every held cooperative extra value, until a delivery (and, if the element promises one, a
+    sink handshake) is seen.  Returns (gaps, failing_letters|None, msg|None) where gaps = worst-case number of
+    cooperative cycles needed to see the first handshake / delivery / sink handshake.  The property monitor part:
+    more than K + slack cycles is a violation."""
     n = inst.netlist
     toks = inst.watch_tokens()
-    worst_hs, worst_del = 0, 0
-    steps = [0]
+    want = {"handshake": inst.k_hs, "delivery": inst.k_del, "sink handshake": inst.k_acc}
+    worst = {k: 0 for k in want}
+    steps = 0
     for ex in inst.coop_extras() or [()]:
-        # stack of (snapshot, letters so far, cycle index of first handshake or None)
-        stack = [(snap, [], None)]
+        stack = [(snap, [], {k: None for k in want})]
         while stack:
-            s, letters, first_hs = stack.pop()
+            s, letters, first = stack.pop()
             depth = len(letters)
-            for tk in (toks if steps[0] < budget else toks[:1]):
+            for tk in (toks if steps < budget else toks[:1]):
                 n.restore(s)
                 letter = (1,) + tuple(tk) + (1,) + tuple(ex)
                 outs = impl_step(inst, letter)
-                steps[0] += 1
+                steps += 1
                 ls = letters + [letter]
-                fh = first_hs
-                if fh is None and (outs[0] or outs[1]):
-                    fh = depth + 1
-                    worst_hs = max(worst_hs, fh)
-                if fh is None and depth + 1 >= limit_hs:
-                    return depth + 1, depth + 1, ls, "no handshake in %d cooperative cycles (valid=1, ready=1)" % (depth + 1)
-                if outs[1]:
-                    worst_del = max(worst_del, depth + 1)
-                    continue
-                if depth + 1 >= limit_del:
-                    return worst_hs, depth + 1, ls, "no delivery in %d cooperative cycles (valid=1, ready=1)" % (depth + 1)
-                stack.append((n.snapshot(), ls, fh))
-    return worst_hs, worst_del, None, None
+                ev = {"handshake": bool(outs[0]) or bool(outs[1]), "delivery": bool(outs[1]),
+                      "sink handshake": bool(outs[0])}
+                f2 = dict(first)
+                open_ = False
+                for k, kk in want.items():
+                    if kk is None:
+                        continue
+                    if f2[k] is None and ev[k]:
+                        f2[k] = depth + 1
+                        worst[k] = max(worst[k], depth + 1)
+                    if f2[k] is None:
+                        open_ = True
+                        if depth + 1 >= kk + slack:
+                            worst[k] = max(worst[k], depth + 1)
+                            return worst, ls, "no %s in %d cooperative cycles (valid=1, ready=1)" % (k, depth + 1)
+                if open_:
+                    stack.append((n.snapshot(), ls, f2))
+    return worst, None, None
+
+
+def over_bounds(inst, worst):
+    """Observed gaps against the bounds of the Lean theorems (tighter than the monitor's K + slack)."""
+    want = {"handshake": inst.k_hs, "delivery": inst.k_del, "sink handshake": inst.k_acc}
+    return [(k, worst[k], kk) for k, kk in want.items() if kk is not None and worst[k] > kk]
 
 
 # ---------------------------------------------------------------------------------------------------------
@@ -313,10 +326,9 @@ def coexplore(inst, lean, cov, max_states=200000, deadline=None):
     alphabet = inst.alphabet
     transitions = nontriv = checks = armed_checks = 0
     watched = {}
-    max_hs = max_del = 0
+    maxgap = {"handshake": 0, "delivery": 0, "sink handshake": 0}
     out = []
     exhaustive = True
-    lim_hs, lim_del = inst.k_hs + 2, inst.k_del + 2
     while frontier and len(out) < 3:
         if (deadline is not None and time.time() > deadline) or len(seen) > max_states:
             exhaustive = False
@@ -326,17 +338,18 @@ def coexplore(inst, lean, cov, max_states=200000, deadline=None):
         for snap, st in batch:
             key, sid, sp, op, xp, armed = st
             if key not in watched:
-                g_hs, g_del, wl, wmsg = coop_gaps(inst, snap, lim_hs, lim_del)
-                watched[key] = (g_hs, g_del)
-                max_hs, max_del = max(max_hs, g_hs), max(max_del, g_del)
+                worst, wl, wmsg = coop_gaps(inst, snap)
+                watched[key] = True
+                for k in maxgap:
+                    maxgap[k] = max(maxgap[k], worst[k])
                 if wmsg:
                     tr = path_to(seen, st) + wl
                     out.append(Disagreement(inst, tr, len(tr) - 1, None, None, kind="monitor:" + wmsg))
-                elif g_hs > inst.k_hs or g_del > inst.k_del:
+                elif over_bounds(inst, worst):
                     tr = path_to(seen, st)
-                    out.append(Disagreement(inst, tr, len(tr) - 1, [g_hs, g_del], [inst.k_hs, inst.k_del],
-                                            kind="progress-bound: observed (handshake, delivery) gaps exceed the "
-                                                 "bounds K, K' of the Lean theorems"))
+                    out.append(Disagreement(inst, tr, len(tr) - 1, None, None,
+                                            kind="progress-bound: observed cooperative gaps exceed the bounds of the "
+                                                 "Lean theorems (what, observed, bound): %r" % (over_bounds(inst, worst),)))
             for letter in alphabet:
                 n.restore(snap)
                 outs = impl_step(inst, letter)
@@ -384,8 +397,11 @@ def coexplore(inst, lean, cov, max_states=200000, deadline=None):
     rec = cov.instances[-1]
     rec.update({"wall_s": round(time.time() - t_start, 1), "impl_states_watched": len(watched),
                 "stability_checks": checks, "stability_checks_on_all_obeying_paths": armed_checks,
-                "max_coop_cycles_to_handshake": max_hs, "max_coop_cycles_to_delivery": max_del,
+                "max_coop_cycles_to_handshake": maxgap["handshake"],
+                "max_coop_cycles_to_delivery": maxgap["delivery"],
                 "K_theorem": inst.k_hs, "K_delivery_theorem": inst.k_del})
+    if inst.k_acc is not None:
+        rec.update({"max_coop_cycles_to_sink_handshake": maxgap["sink handshake"], "K_accept_theorem": inst.k_acc})
     if inst.note:
         rec["note"] = inst.note
     cov.hist["stability_checks"] = cov.hist.get("stability_checks", 0) + checks
@@ -404,35 +420,34 @@ def cosim(inst, lean, cov, rng, cycles, runs=1, watch_every=8):
     n = inst.netlist
     root = n.snapshot()
     out = []
-    lim_hs, lim_del = inst.k_hs + 2, inst.k_del + 2
     for run in range(runs):
         n.restore(root)
         lean.open(inst.lean_open)
         prod = HoldingGen(inst)
         stab = StabilityMonitor()
-        live = LiveWatch(inst.k_hs, inst.k_del, inst.coop_extra)
+        live = LiveWatch(inst.k_hs, inst.k_del, inst.coop_extra, k_acc=inst.k_acc)
         mon = Both(stab, live) if inst.stable else live
         letters, impl_outs = [], []
         monmsg = None
         distinct = set()
-        max_hs = max_del = 0
+        maxgap = {"handshake": 0, "delivery": 0, "sink handshake": 0}
         watched = 0
         for t in range(cycles):
             if t % watch_every == 0 and monmsg is None:
                 here = n.snapshot()
-                g_hs, g_del, wl, wmsg = coop_gaps(inst, here, lim_hs, lim_del, budget=60)
+                worst, wl, wmsg = coop_gaps(inst, here, budget=60)
                 n.restore(here)
                 watched += 1
-                max_hs, max_del = max(max_hs, g_hs), max(max_del, g_del)
+                for k in maxgap:
+                    maxgap[k] = max(maxgap[k], worst[k])
                 if wmsg:
                     tr = list(letters) + wl
                     out.append(Disagreement(inst, tr, len(tr) - 1, None, None, kind="monitor:" + wmsg))
                     monmsg = (t, wmsg)
-                elif g_hs > inst.k_hs or g_del > inst.k_del:
-                    out.append(Disagreement(inst, list(letters), len(letters) - 1, [g_hs, g_del],
-                                            [inst.k_hs, inst.k_del],
-                                            kind="progress-bound: observed (handshake, delivery) gaps exceed the "
-                                                 "bounds K, K' of the Lean theorems"))
+                elif over_bounds(inst, worst):
+                    out.append(Disagreement(inst, list(letters), len(letters) - 1, None, None,
+                                            kind="progress-bound: observed cooperative gaps exceed the bounds of the "
+                                                 "Lean theorems (what, observed, bound): %r" % (over_bounds(inst, worst),)))
                     monmsg = (t, "bound")
             letter = prod.gen(rng, t)
             outs = impl_step(inst, letter)
@@ -455,9 +470,12 @@ def cosim(inst, lean, cov, rng, cycles, runs=1, watch_every=8):
                 break
         cov.add_instance(inst.name, states=0, transitions=cycles, nontrivial=len(distinct), exhaustive=False, mode="B")
         cov.instances[-1].update({"stability_checks": stab.checks, "snapshots_watched": watched,
-                                  "max_coop_cycles_to_handshake": max(max_hs, live.max_hs + (1 if live.max_hs else 0)),
-                                  "max_coop_cycles_to_delivery": max(max_del, live.max_del + (1 if live.max_del else 0)),
+                                  "max_coop_cycles_to_handshake": maxgap["handshake"],
+                                  "max_coop_cycles_to_delivery": maxgap["delivery"],
                                   "K_theorem": inst.k_hs, "K_delivery_theorem": inst.k_del})
+        if inst.k_acc is not None:
+            cov.instances[-1].update({"max_coop_cycles_to_sink_handshake": maxgap["sink handshake"],
+                                      "K_accept_theorem": inst.k_acc})
         cov.hist["stability_checks"] = cov.hist.get("stability_checks", 0) + stab.checks
         cov.hist["watchdog_states"] = cov.hist.get("watchdog_states", 0) + watched
         if len(cov.samples) < 4:
@@ -473,7 +491,6 @@ def monitor_search(inst, rng, cycles=4000, runs=6, deadline=None):
     """Failing-input search on the real code alone: holding producer, both monitors, periodic watchdog."""
     n = inst.netlist
     root = n.snapshot()
-    lim_hs, lim_del = inst.k_hs + 2, inst.k_del + 2
     try:
         for run in range(runs):
             n.restore(root)
@@ -485,7 +502,7 @@ def monitor_search(inst, rng, cycles=4000, runs=6, deadline=None):
                     return None
                 if t % 4 == 0:
                     here = n.snapshot()
-                    _, _, wl, wmsg = coop_gaps(inst, here, lim_hs, lim_del, budget=60)
+                    _, wl, wmsg = coop_gaps(inst, here, budget=60)
                     n.restore(here)
                     if wmsg:
                         return letters + wl, wmsg
@@ -530,6 +547,8 @@ def _worker(idx):
             dis = coexplore(inst, lean, cov, **kw)
         elif job.mode == "B":
             dis = cosim(inst, lean, cov, rng, **job.kw)
+        elif job.mode == "R":
+            dis = route_pairs(inst, lean, cov, **kw)
         elif job.mode == "A0":
             dis = explore.coexplore(inst, lean, cov, **job.kw)
         else:
@@ -638,3 +657,202 @@ class StatusInst:
 
     def monitor(self):
         return StatusRef()
+
+
+# ---------------------------------------------------------------------------------------------------------
+# Multiplexer / Demultiplexer (combinational routers; letters as in c03lib.MuxInst / DemuxInst)
+
+class RouteView:
+    """Uniform view of one cycle of a router: which tokens wait where, and what `held` inputs the environment
+    must repeat in the next cycle (the selector while any token waits, and every refused sink token).
+       mux   letter = (sel, source.ready, (valid, data, first, last) per sink)
+             outs   = [source.valid, data, first, last, sink_k.ready ...]
+       demux letter = (sel, sink.valid, data, first, last, source_k.ready ...)
+             outs   = [sink.ready, (valid, data, first, last) per source]"""
+
+    def __init__(self, kind, n):
+        self.kind, self.n = kind, n
+
+    def sinks(self, letter):
+        if self.kind == "mux":
+            return [tuple(letter[2 + 4 * k: 6 + 4 * k]) for k in range(self.n)]
+        return [tuple(letter[1:5])]
+
+    def sink_ready(self, outs):
+        return list(outs[4:4 + self.n]) if self.kind == "mux" else [outs[0]]
+
+    def sources(self, outs):
+        if self.kind == "mux":
+            return [tuple(outs[0:4])]
+        return [tuple(outs[1 + 4 * k: 5 + 4 * k]) for k in range(self.n)]
+
+    def source_ready(self, letter):
+        return [letter[1]] if self.kind == "mux" else list(letter[5:5 + self.n])
+
+    def pending(self, letter, outs):
+        sp = {k: s for k, (s, r) in enumerate(zip(self.sinks(letter), self.sink_ready(outs))) if s[0] and not r}
+        op = {k: s[1:] for k, (s, r) in enumerate(zip(self.sources(outs), self.source_ready(letter))) if s[0] and not r}
+        return sp, op
+
+    def obeys(self, prev_letter, sp, op, letter):
+        if (sp or op) and letter[0] != prev_letter[0]:
+            return False
+        cur = self.sinks(letter)
+        return all(cur[k] == s for k, s in sp.items())
+
+    def check(self, op, outs):
+        src = self.sources(outs)
+        for k, tok in op.items():
+            if not src[k][0]:
+                return "source%s.valid retracted: token %r was offered, not taken, and is gone" % (
+                    "" if self.kind == "mux" else k, tok)
+            if src[k][1:] != tok:
+                return "source%s token changed while valid and not ready: %r -> %r" % (
+                    "" if self.kind == "mux" else k, tok, src[k][1:])
+        return None
+
+    def moves(self, letter, outs):
+        """Progress: selector legal, selected sink offers, selected consumer ready -> the token moves now."""
+        sel = letter[0]
+        if sel >= self.n:
+            return None
+        if self.kind == "mux":
+            s = self.sinks(letter)[sel]
+            if s[0] and letter[1]:
+                if not (outs[0] and outs[4 + sel]):
+                    return "selected sink %d offers and the consumer is ready, but no handshake" % sel
+        else:
+            if letter[1] and letter[5 + sel]:
+                src = self.sources(outs)[sel]
+                if not (outs[0] and src[0]):
+                    return "sink offers and source %d is ready, but no handshake" % sel
+        return None
+
+
+class RouteMonitor:
+    """Trace monitor for a router.  The routers have no state, so the one-cycle form is exact: the boundary is
+    checked whenever the environment kept its part across it."""
+
+    def __init__(self, view):
+        self.view = view
+        self.prev = None
+        self.checks = 0
+
+    def observe(self, letter, outs):
+        v = self.view
+        msg = v.moves(letter, outs)
+        if msg is None and self.prev is not None:
+            pl, sp, op = self.prev
+            if op and v.obeys(pl, sp, op, letter):
+                self.checks += 1
+                msg = v.check(op, outs)
+        sp, op = v.pending(letter, outs)
+        self.prev = (letter, sp, op)
+        return msg
+
+
+class RouteInst:
+    """Wraps c03lib.MuxInst / DemuxInst with the C04 monitor and a generator that mostly keeps the contract."""
+
+    def __init__(self, inner, kind):
+        self.inner = inner
+        self.kind = kind
+        self.n = inner.n
+        self.view = RouteView(kind, inner.n)
+        self.name, self.lean_open, self.netlist, self.qual = inner.name, inner.lean_open, inner.netlist, inner.qual
+        self.alphabet = inner.alphabet
+        self._last = None
+
+    def apply(self, letter):
+        self._letter = letter
+        self.inner.apply(letter)
+
+    def sample(self):
+        outs = self.inner.sample()
+        self._last = (self._letter, outs)
+        return outs
+
+    def nontrivial(self, letter, outs):
+        return self.inner.nontrivial(letter, outs)
+
+    def gen(self, rng, t):
+        l = list(self.inner.gen(rng, t))
+        if self._last is not None and rng.random() < 0.8:
+            pl, po = self._last
+            sp, op = self.view.pending(pl, po)
+            if sp or op:
+                l[0] = pl[0]
+            for k, s in sp.items():
+                if self.kind == "mux":
+                    l[2 + 4 * k: 6 + 4 * k] = s
+                else:
+                    l[1:5] = s
+        return tuple(l)
+
+    def monitor(self):
+        return RouteMonitor(self.view)
+
+
+def route_pairs(inst, lean, cov, deadline=None):
+    """Exhaustive over the alphabet: port comparison with the model for every letter, the progress check for every
+    letter, and the stability check for every ordered pair (l, l') in which the environment keeps its part."""
+    n = inst.netlist
+    t0 = time.time()
+    root = n.snapshot()
+    out = []
+    lean.open(inst.lean_open)
+    v = inst.view
+    outs_of = {}
+    stateless = len(n.regs) == 0
+    reqs = []
+    for l in inst.alphabet:
+        n.restore(root)
+        outs_of[l] = impl_step(inst, l)
+        reqs.append((0, l))
+    model = lean.step_batch(reqs)
+    lean.close_session()
+    nontriv = 0
+    for l, (sid, mo) in zip(inst.alphabet, model):
+        if inst.nontrivial(l, outs_of[l]):
+            nontriv += 1
+        if not masked_equal(inst, outs_of[l], mo):
+            out.append(Disagreement(inst, [l], 0, outs_of[l], mo))
+        m = v.moves(l, outs_of[l])
+        if m:
+            out.append(Disagreement(inst, [l], 0, outs_of[l], None, kind="monitor:" + m))
+        if len(out) >= 3:
+            break
+    checks = pairs = 0
+    exhaustive = True
+    if not out:
+        for l in inst.alphabet:
+            if deadline is not None and time.time() > deadline:
+                exhaustive = False
+                break
+            sp, op = v.pending(l, outs_of[l])
+            if not op:
+                continue
+            for l2 in inst.alphabet:
+                if not v.obeys(l, sp, op, l2):
+                    continue
+                pairs += 1
+                if stateless:
+                    o2 = outs_of[l2]
+                else:
+                    n.restore(root)
+                    impl_step(inst, l)
+                    o2 = impl_step(inst, l2)
+                checks += 1
+                m = v.check(op, o2)
+                if m:
+                    out.append(Disagreement(inst, [l, l2], 1, o2, None, kind="monitor:" + m))
+                    break
+            if len(out) >= 3:
+                break
+    n.restore(root)
+    cov.add_instance(inst.name, states=1, transitions=len(inst.alphabet) + pairs, nontrivial=nontriv,
+                     exhaustive=exhaustive and not out, mode="A")
+    cov.instances[-1].update({"wall_s": round(time.time() - t0, 1), "stability_checks": checks,
+                              "contract_obeying_letter_pairs": pairs, "registers": len(n.regs)})
+    cov.hist["stability_checks"] = cov.hist.get("stability_checks", 0) + checks
+    return out
